@@ -223,7 +223,11 @@ func CastLit(l *Lit, t *Type) *gtext.G {
 	g := &gtext.G{K: gtext.GStruct}
 	given := map[string]*Lit{}
 	for i := 0; i+1 < len(l.Items); i += 2 {
-		given[l.Items[i].S] = l.Items[i+1]
+		k := l.Items[i].S
+		if l.Items[i].Field != nil {
+			k = l.Items[i].Field.Name
+		}
+		given[k] = l.Items[i+1]
 	}
 	for _, fl := range d.Fields {
 		switch {
